@@ -1239,8 +1239,20 @@ def _flag_loops(tree):
                 if not (isinstance(blk, list) and len(blk) >= 2 and
                         isinstance(blk[0], ast.stmt)):
                     continue
-                for i in range(len(blk) - 1):
-                    a, lp = blk[i], blk[i + 1]
+                for i0 in range(len(blk) - 1):
+                    a = blk[i0]
+                    # the loop follows the flag's initialisation, plain
+                    # assignments that do not mention the flag in between
+                    i = i0
+                    while i + 1 < len(blk) - 1 and isinstance(
+                            blk[i + 1], ast.Assign) and isinstance(
+                                a, ast.Assign) and len(a.targets) == 1 and \
+                            isinstance(a.targets[0], ast.Name) and not any(
+                                isinstance(x, ast.Name) and
+                                x.id == a.targets[0].id
+                                for x in ast.walk(blk[i + 1])):
+                        i += 1
+                    lp = blk[i + 1]
                     if not (isinstance(a, ast.Assign) and len(
                             a.targets) == 1 and isinstance(
                                 a.targets[0], ast.Name) and isinstance(
@@ -1312,7 +1324,7 @@ def _flag_loops(tree):
                     if tail_if is not None:
                         lp.orelse = tail_if.body
                         del blk[i + 2]
-                    del blk[i]
+                    del blk[i0]
                     break
 
 
@@ -1810,6 +1822,38 @@ def _partial_defs(tree):
             tree.body[i] = ast.fix_missing_locations(fn)
 
 
+def _decorator_callables(tree):
+    """A decorator argument that names a module-level function whose body is
+    one ``return <expression>`` is the lambda it abbreviates
+    (``exception_checker=_is_duplicate(exc)`` style predicates)."""
+    if not isinstance(tree, ast.Module):
+        return
+    defs = {}
+    for s_ in tree.body:
+        if isinstance(s_, ast.FunctionDef) and not s_.decorator_list:
+            body = [b for b in s_.body if not (
+                isinstance(b, ast.Expr) and isinstance(
+                    b.value, ast.Constant))]
+            if len(body) == 1 and isinstance(
+                    body[0], ast.Return) and body[0].value is not None:
+                defs[s_.name] = (s_, body[0].value)
+    if not defs:
+        return
+    for f in ast.walk(tree):
+        if not isinstance(f, (ast.FunctionDef, ast.AsyncFunctionDef)):
+            continue
+        for d in f.decorator_list:
+            if not isinstance(d, ast.Call):
+                continue
+            for k in d.keywords:
+                if isinstance(k.value, ast.Name) and k.value.id in defs:
+                    fn, val = defs[k.value.id]
+                    k.value = ast.copy_location(ast.Lambda(
+                        args=_plain_copy(fn.args), body=_plain_copy(val)),
+                        k.value)
+                    ast.fix_missing_locations(k.value)
+
+
 def normalise(tree):
     """Canonical statement shapes, so that rules see one spelling of
     equivalent control flow (positions are kept; nothing is executed):
@@ -1823,6 +1867,7 @@ def normalise(tree):
     4. in a loop body ``if c: continue`` + rest  ->  ``if not c: rest``
     Each step is semantics-preserving for any program."""
     _partial_defs(tree)
+    _decorator_callables(tree)
     _quantifier_returns(tree)
     _first_match(tree)
     _unroll_table_loops(tree)
